@@ -176,6 +176,19 @@ CHECKS["C07"] = dict(
     technique="TLA+ spec (VyArith over BigInt) model-checked by TLC + TLC evaluation of ArithOK on every logged call",
 )
 
+CHECKS["C08"] = dict(
+    text="VyVector fixes the pairing structure of vectorisation (scalar/list cases, recursion, zero fill) with the "
+         "element as an uninterpreted leaf function; TLC checks it is total and shape preserving for every pair of "
+         "argument shapes (MC_Vector). Every documented-vectorising element of the curated table is called on flat and "
+         "nested, eager and lazy lists and, separately, on the scalar leaves; TLC rebuilds the expected result from the "
+         "leaf results with the specification's pairing structure and compares it with the forced list result.",
+    note="Trusted: data/vectorising.json (88 included, 17 excluded with the documented reason); leaf results come from "
+         "the same implementation (the property is about the list structure, not about any element's scalar meaning).",
+    ref="DESIGN.md section 6 C08",
+    technique="TLA+ spec (VyVector pairing structure) model-checked by TLC + TLC reconstruction of every observed list "
+              "result from observed leaf results",
+)
+
 NOT_APPLICABLE = {}
 
 DEFAULT_NA = ("check under construction in this round; it will be claimed when its TLA+ module and "
